@@ -1,1 +1,45 @@
-From TB Require Import Base.
+(** C01 - only SHA-1-verified torrent bytes are ever written into the export tree.  Statements only. *)
+From TB Require Import Base Decimal BencodeModel TorrentModel TorrentProofs PathModel FsModel SolverModel FinderModel RunModel
+                       SolverProofs RunProofs FsProofs FaultProofs PreludeProofs TableProofs Generated GeneratedObligations.
+Local Open Scope N_scope.
+
+(** For every piece: whatever the candidate reads return and whichever operations fail - hence under
+    every interleaving with other workers, every decoy/candidate combination and every prior export
+    state - the evaluation issues only good operations: on the export image of one of the piece's own
+    non-padding segments, the torrent's bytes of that segment at that segment's offset; and the write
+    branch is entered only after the assembled buffer matched the piece hash.  [cr] is collision
+    freeness at this piece; the side conditions on the piece come from the layout (C06). *)
+Theorem C01_piece_issues_only_good_ops H content pc :
+  wf_piece content pc -> cr H content pc -> w_segs pc <> [] ->
+  (forall s, w_segs pc = [s] -> ps_len s <> 0) ->
+  good content pc (solve_prog H pc).
+Proof. exact (solve_prog_good H content pc). Qed.
+
+(** Every event sequence the trace validator accepts for such a program - complete or cut off -
+    consists of good operations only. *)
+Theorem C01_accepted_traces_are_good content pc pg : good content pc pg -> forall evs n,
+  match walk pg evs n with
+  | WDone o => Forall (ev_ok content pc) evs /\ o <> PanicO
+  | WCut => Forall (ev_ok content pc) evs
+  | _ => True
+  end.
+Proof. exact (walk_good content pc pg). Qed.
+
+(** Byte level, for any file and ANY order of [set_len declared] and (complete or cut) writes of
+    torrent bytes at their own offsets: every byte is what it was before, a zero of extension, or
+    the torrent's byte at that offset. *)
+Theorem C01_file_bytes_sound old C L ops : Forall (file_op_ok C L) ops ->
+  Inv old C L (fold_left (apply_file_op L) ops old).
+Proof. exact (file_ops_sound old C L ops). Qed.
+
+(** Lifted to the file-system model: along any run of admissible operations (never truncating,
+    set_len to the declared length, torrent bytes at their own offsets), every inode's content
+    satisfies the byte invariant - inodes no operation names are unchanged. *)
+Theorem C01_fs_bytes_sound truth decl f0 ops f1 : run_ops (adm truth decl) f0 ops f1 ->
+  forall j, Inv (fs_content f0 j) (truth j) (decl j) (fs_content f1 j).
+Proof. exact (fs_ops_sound truth decl f0 ops f1). Qed.
+
+Print Assumptions C01_piece_issues_only_good_ops.
+Print Assumptions C01_accepted_traces_are_good.
+Print Assumptions C01_file_bytes_sound.
+Print Assumptions C01_fs_bytes_sound.
